@@ -414,6 +414,25 @@ def check_real(kind, op, n, rep=None, want=None):
 
     obs("get_all_variables", lambda: sorted(v.name for v in get_all_variables(e)), chk_vars)
     obs("Problem.variables", lambda: sorted(v.name for v in Problem().minimize(e).subject_to(e <= 1e9).variables), chk_vars)
+    # a unary node ON TOP of the accumulation (minimise the negated profit, exp of a sum) and a chain that STARTS with a
+    # variable occurring nowhere else
+    import optyx as _ox
+
+    obs("get_all_variables(-acc)", lambda: sorted(v.name for v in get_all_variables(-e)), chk_vars)
+    obs("get_all_variables(tanh(acc)+acc)", lambda: sorted(v.name for v in get_all_variables(_ox.tanh(e) + e)), chk_vars)
+    obs("Problem.variables(-acc)", lambda: sorted(v.name for v in Problem().maximize(-e).subject_to(-e >= -1e9).variables), chk_vars)
+
+    def unique_first():
+        u = _ox.Variable("u_first")
+        acc = u
+        b2 = Builder(params=params)
+        for t, o_ in zip(terms, ("+",) + ops):
+            x_ = b2.build(t)
+            acc = acc + x_ if o_ == "+" else acc - x_ if o_ == "-" else acc * x_ if o_ == "*" else acc / x_
+        return sorted(v.name for v in Problem().minimize(acc).variables)
+
+    obs("Problem.variables(unique-first-term)", unique_first, lambda val: chk_vars([v for v in val if v != "u_first"]) or (
+        None if "u_first" in val else fails.add("variables", config=tag, got=val[:6], missing="u_first")))
     # degree: compare with the same formula built balanced
     bal = balanced(Builder(params=params), terms, ops)
 
